@@ -18,6 +18,9 @@ Open Scope list_scope.
 Inductive target := TJ | TP.                      (* junction table / pipe table *)
 Definition target_tab (t : target) : string := match t with TJ => "junction" | TP => "pipe" end.
 Inductive tsel := Fixed (t : target) | ByEt.      (* valve.element: target chosen by the argument et *)
+(* what feeds a written column: an argument as it is / through bool(), the constant None, or a value computed
+   by the function (std-type parameters, inferred type, clamped storage level) - not modelled here *)
+Inductive colsrc := FromParam (p : string) | BoolOf (p : string) | ConstNone | Derived.
 Record refcol := { rc_col : string; rc_tsel : tsel; rc_checked : bool }.
 Record schema := {
   s_fn : string; s_table : string; s_bulk : bool;
@@ -25,7 +28,9 @@ Record schema := {
   s_std : option (string * bool);                 (* std-type table, checked by _check_std_type ? *)
   s_eg : bool;                                    (* type inferred by _auto_ext_grid_type(s) *)
   s_late : bool;                                  (* a raise / check / second write follows the row write *)
-  s_defaults : list (string * string) }.          (* parameter (singular name) -> repr of its default *)
+  s_defaults : list (string * string);            (* parameter (singular name) -> repr of its default *)
+  s_cols : list (string * colsrc);                (* every column the row writer sets, and what feeds it *)
+  s_ndefaults : list (string * string) }.         (* parameter (own name) -> canonical encoding of its default *)
 
 (* ---------------------------------------------------------------- the net as a database *)
 Record row := {
@@ -35,7 +40,8 @@ Record row := {
   r_loose : list (target * Z);                    (* written without an existence check *)
   r_std : list (string * string);                 (* checked std-type reference (table, name) *)
   r_loose_std : list (string * string);
-  r_pay : Z }.                                    (* all other fields: abstract token *)
+  r_vals : list (string * string);                (* value columns: column -> canonical encoding of the cell *)
+  r_pay : Z }.                                    (* fields computed by the function: abstract token *)
 Definition table := list row.
 Record db := { d_tabs : layer table; d_std : list (string * string) }.
 
@@ -70,6 +76,7 @@ Record args := {
   a_pt_null : bool;                               (* neither pressure nor temperature given *)
   a_invalid : bool;                               (* another documented precondition fails (value checks) *)
   a_late_bad : bool;                              (* the step after the row write fails (malformed geodata) *)
+  a_vals : list (string * string);                (* arguments passed explicitly: parameter -> canonical encoding *)
   a_pay : Z }.
 
 Inductive err := EInvalid | EArity | EDupIndex | EMissingRef | EUnknownStd | ENoPT | ELen | ELate.
@@ -120,9 +127,20 @@ Definition checked_part (rs : list res) : list (target * Z) :=
 Definition loose_part (rs : list res) : list (target * Z) :=
   map snd (filter (fun x : res => negb (fst (fst x))) rs).
 
+(* the value an argument has in the call: passed explicitly, else the literal default of the signature *)
+Definition arg_value (s : schema) (a : args) (p : string) : option string :=
+  match get p (a_vals a) with Some v => Some v | None => get p (s_ndefaults s) end.
+Definition cell_of (s : schema) (a : args) (cs : string * colsrc) : list (string * string) :=
+  match snd cs with
+  | FromParam p | BoolOf p => match arg_value s a p with Some v => [(fst cs, v)] | None => [] end
+  | ConstNone => [(fst cs, "null")]
+  | Derived => []
+  end.
+Definition row_values (s : schema) (a : args) : list (string * string) := flat_map (cell_of s a) (s_cols s).
+
 Definition mkrow (s : schema) (a : args) (rs : list res) (lab : Z) : row :=
   {| r_label := lab; r_refvals := a_refvals a; r_refs := checked_part rs; r_loose := loose_part rs;
-     r_std := std_refs s a true; r_loose_std := std_refs s a false; r_pay := a_pay a |}.
+     r_std := std_refs s a true; r_loose_std := std_refs s a false; r_vals := row_values s a; r_pay := a_pay a |}.
 
 Definition reg (s : schema) (d : db) (a : args) : db :=
   if a_reg_std a then
@@ -201,7 +219,8 @@ Definition create_bulk (s : schema) (d : db) (b : bargs) : status * db :=
 (* the single twin applied one by one with the given labels *)
 Definition with_index (a : args) (i : option Z) : args :=
   {| a_index := i; a_refvals := a_refvals a; a_et := a_et a; a_std := a_std a; a_reg_std := a_reg_std a;
-     a_pt_null := a_pt_null a; a_invalid := a_invalid a; a_late_bad := a_late_bad a; a_pay := a_pay a |}.
+     a_pt_null := a_pt_null a; a_invalid := a_invalid a; a_late_bad := a_late_bad a; a_vals := a_vals a;
+     a_pay := a_pay a |}.
 
 Fixpoint fold_single (s : schema) (d : db) (rows : list args) (idx : list (option Z)) : err + (list Z * db) :=
   match rows, idx with
@@ -312,7 +331,16 @@ Record case := {
   c_ok : bool;                          (* the real call returned normally *)
   c_labels : list Z;                    (* labels it returned *)
   c_after : list (Z * list Z);          (* target table afterwards: label, reference columns *)
-  c_std_after : nat }.                  (* number of std types of the schema's std table afterwards *)
+  c_std_after : nat;                    (* number of std types of the schema's std table afterwards *)
+  c_new_vals : list (list (string * string)) }.   (* value columns of the rows added by the real call *)
+Fixpoint pairs_eqb (a b : list (string * string)) : bool :=
+  match a, b with
+  | [], [] => true
+  | (k, v) :: r, (k', v') :: r' => String.eqb k k' && String.eqb v v' && pairs_eqb r r'
+  | _, _ => false
+  end.
+Fixpoint rows_eqb (a b : list (list (string * string))) : bool :=
+  match a, b with [], [] => true | x :: r, y :: r' => pairs_eqb x y && rows_eqb r r' | _, _ => false end.
 Definition count_std (d : db) (t : string) : nat := length (filter (fun x => String.eqb (fst x) t) (d_std d)).
 Definition case_ok (c : case) : bool :=
   let '(st, d') := match c_call c with
@@ -321,6 +349,7 @@ Definition case_ok (c : case) : bool :=
   Bool.eqb (is_ok st) (c_ok c) &&
   match st with Ok l => zlist_eqb l (c_labels c) | Err _ => true end &&
   view_eqb (view d' (s_table (c_schema c))) (c_after c) &&
+  rows_eqb (map r_vals (skipn (length (tab (c_db c) (s_table (c_schema c)))) (tab d' (s_table (c_schema c))))) (c_new_vals c) &&
   match s_std (c_schema c) with Some (t, _) => Nat.eqb (count_std d' t) (c_std_after c) | None => true end.
 Fixpoint first_bad (cs : list case) (i : nat) : option nat :=
   match cs with [] => None | c :: r => if case_ok c then first_bad r (S i) else Some i end.
